@@ -114,67 +114,98 @@ func runC28(c *Ctx) {
 	}
 	byAction["UpdateHatAction"] = tabAttr{"UpdateHatAction", "ShowHat", "ShowHat", ""}
 
-	// ---- (1) emit side
-	stores := actionStores(add)
-	var blocks []*ssa.BasicBlock
-	for b := range stores {
-		blocks = append(blocks, b)
+	// ---- (1) emit side — in add and in the unexported helpers it was split into (their parameters bound
+	// to the arguments of their call, so "the entry being added" stays the same value throughout)
+	isModelLookup := func(v ssa.Value) bool {
+		v = strip(v)
+		if lk, ok := v.(*ssa.Lookup); ok {
+			return strings.HasSuffix(PathOf(lk.X), ".EntriesByID")
+		}
+		if cl, ok := v.(*ssa.Call); ok {
+			if h := staticCallee(&cl.Call); h != nil && h.Blocks != nil && isUnexportedHelper(h) {
+				for _, r := range returnsOf(h) {
+					if len(r.Results) > 0 {
+						if lk, isLk := strip(retVal(r, 0)).(*ssa.Lookup); isLk && strings.HasSuffix(PathOf(lk.X), ".EntriesByID") {
+							return true
+						}
+					}
+				}
+			}
+		}
+		return false
 	}
-	sort.Slice(blocks, func(i, j int) bool { return blocks[i].Index < blocks[j].Index })
 	prevNonNil := func(e Edge, cond ssa.Value, truth bool) bool {
 		v, isNil, ok := nilCmp(cond, truth)
 		if !ok || isNil {
 			return false
 		}
-		_, isLookup := strip(v).(*ssa.Lookup)
-		return isLookup
+		return isModelLookup(v)
 	}
 	nUpd, newSeen := 0, map[string]bool{}
-	for _, b := range blocks {
-		first := b.Instrs[0]
-		inUpdate, nsel := MustCross(first, prevNonNil)
-		for _, act := range stores[b] {
-			at, known := byAction[act]
-			if !inUpdate || nsel == 0 {
-				newSeen[act] = true
-				continue
-			}
-			if !known {
-				continue
-			}
-			nUpd++
-			// (a) behind a comparison of previous.G() and entry.G()
-			cmp := false
-			for _, e := range EdgeDominators(b) {
-				cond, _ := e.Cond()
-				if len(invokesGetter(cond, at.getter, 5)) >= 2 {
-					cmp = true
+	parts := deepFuncs(add, 2)
+	forEachPart := func(f func(fn *ssa.Function)) {
+		for _, g := range parts {
+			g := g
+			if g == add || !withCalleeBound(g, func() { f(g) }) {
+				if g == add || g.Parent() != nil {
+					f(g)
 				}
 			}
-			// (b) the packet field is filled from entry.G()
-			fieldOK := false
-			for _, in := range b.Instrs {
-				st, ok := in.(*ssa.Store)
-				if !ok {
-					continue
-				}
-				fa, isFA := st.Addr.(*ssa.FieldAddr)
-				if !isFA || fieldOfAddr(fa).Name() != at.field {
-					continue
-				}
-				recvs := getterReceivers(st.Val, at.getter, 6)
-				fieldOK = len(recvs) > 0
-				for _, r := range recvs {
-					if r != ssa.Value(entryPrm) {
-						fieldOK = false
-					}
-				}
-			}
-			c.Check("emit-pairing", act+"@add(update)", first, cmp && fieldOK,
-				fmt.Sprintf("the action %s must be sent exactly when previous.%s() differs from entry.%s() and carry entry.%s() in the packet's %s field (compared=%v, field-from-new-entry=%v): otherwise the client is told something the model does not say",
-					act, at.getter, at.getter, at.getter, at.field, cmp, fieldOK))
 		}
 	}
+	forEachPart(func(part *ssa.Function) {
+		stores := actionStores(part)
+		var blocks []*ssa.BasicBlock
+		for b := range stores {
+			blocks = append(blocks, b)
+		}
+		sort.Slice(blocks, func(i, j int) bool { return blocks[i].Index < blocks[j].Index })
+		for _, b := range blocks {
+			first := b.Instrs[0]
+			inUpdate, nsel := MustCross(first, prevNonNil)
+			for _, act := range stores[b] {
+				at, known := byAction[act]
+				if !inUpdate || nsel == 0 {
+					newSeen[act] = true
+					continue
+				}
+				if !known {
+					continue
+				}
+				nUpd++
+				// (a) behind a comparison of previous.G() and entry.G()
+				cmp := false
+				for _, e := range EdgeDominators(b) {
+					cond, _ := e.Cond()
+					if len(invokesGetter(cond, at.getter, 5)) >= 2 {
+						cmp = true
+					}
+				}
+				// (b) the packet field is filled from entry.G()
+				fieldOK := false
+				for _, in := range b.Instrs {
+					st, ok := in.(*ssa.Store)
+					if !ok {
+						continue
+					}
+					fa, isFA := st.Addr.(*ssa.FieldAddr)
+					if !isFA || fieldOfAddr(fa).Name() != at.field {
+						continue
+					}
+					recvs := getterReceivers(st.Val, at.getter, 6)
+					fieldOK = len(recvs) > 0
+					for _, r := range recvs {
+						if r != ssa.Value(entryPrm) {
+							fieldOK = false
+						}
+					}
+				}
+				c.Check("emit-pairing", act+"@add(update)", first, cmp && fieldOK,
+					fmt.Sprintf("the action %s must be sent exactly when previous.%s() differs from entry.%s() and carry entry.%s() in the packet's %s field (compared=%v, field-from-new-entry=%v): otherwise the client is told something the model does not say",
+						act, at.getter, at.getter, at.getter, at.field, cmp, fieldOK))
+			}
+		}
+	})
 	if nUpd < 5 {
 		c.Undecided("emit-pairing", "add(update)", fmt.Sprintf("expected ≥5 diffed attributes in the update branch, found %d", nUpd))
 	}
@@ -184,37 +215,41 @@ func runC28(c *Ctx) {
 	}
 	for _, f := range []struct{ field, getter string }{{"Profile", "Profile"}, {"Latency", "Latency"}, {"Listed", "Listed"}} {
 		ok := false
-		eachInstr(add, func(in ssa.Instruction) {
-			st, isSt := in.(*ssa.Store)
-			if !isSt {
-				return
-			}
-			fa, isFA := st.Addr.(*ssa.FieldAddr)
-			if !isFA || fieldOfAddr(fa).Name() != f.field || !typeIs(fa.X.Type(), "tablist/playerinfo", "Entry") {
-				return
-			}
-			for _, r := range getterReceivers(st.Val, f.getter, 6) {
-				if r == ssa.Value(entryPrm) {
-					ok = true
+		forEachPart(func(part *ssa.Function) {
+			eachInstr(part, func(in ssa.Instruction) {
+				st, isSt := in.(*ssa.Store)
+				if !isSt {
+					return
 				}
-			}
+				fa, isFA := st.Addr.(*ssa.FieldAddr)
+				if !isFA || fieldOfAddr(fa).Name() != f.field || !typeIs(fa.X.Type(), "tablist/playerinfo", "Entry") {
+					return
+				}
+				for _, r := range getterReceivers(st.Val, f.getter, 6) {
+					if r == ssa.Value(entryPrm) {
+						ok = true
+					}
+				}
+			})
 		})
 		c.CheckAt("new-entry", "field "+f.field+"=entry."+f.getter+"()@add", c.P.Pos(add.Pos()), ok, "the packet entry's "+f.field+" must come from the entry being added")
 	}
 	// the model write: key is the entry's own profile id, under the lock
 	nW := 0
-	eachInstr(add, func(in ssa.Instruction) {
-		mu, ok := in.(*ssa.MapUpdate)
-		if !ok || !strings.HasSuffix(PathOf(mu.Map), ".EntriesByID") {
-			return
-		}
-		nW++
-		keyOK := derivesFrom(mu.Key, 6, func(x ssa.Value) bool {
-			cl, ok := x.(*ssa.Call)
-			return ok && cl.Call.IsInvoke() && cl.Call.Method.Name() == "Profile" && strip(cl.Call.Value) == ssa.Value(entryPrm)
+	forEachPart(func(part *ssa.Function) {
+		eachInstr(part, func(in ssa.Instruction) {
+			mu, ok := in.(*ssa.MapUpdate)
+			if !ok || !strings.HasSuffix(PathOf(mu.Map), ".EntriesByID") {
+				return
+			}
+			nW++
+			keyOK := derivesFrom(strip(mu.Key), 6, func(x ssa.Value) bool {
+				cl, ok := x.(*ssa.Call)
+				return ok && cl.Call.IsInvoke() && cl.Call.Method.Name() == "Profile" && strip(cl.Call.Value) == ssa.Value(entryPrm)
+			})
+			c.Check("model-key", "EntriesByID[entry.Profile().ID]=entry@add", in, keyOK && strip(mu.Value) == ssa.Value(entryPrm),
+				"the model must store the added entry under its own profile id")
 		})
-		c.Check("model-key", "EntriesByID[entry.Profile().ID]=entry@add", in, keyOK && strip(mu.Value) == ssa.Value(entryPrm),
-			"the model must store the added entry under its own profile id")
 	})
 	if nW == 0 {
 		c.Undecided("model-key", "add", "the model map is not written")
@@ -222,7 +257,7 @@ func runC28(c *Ctx) {
 	checkGuarded(c, lc, scope, GuardSpec{Type: pkgITab + ":TabList", Mutex: "RWMutex", Fields: []string{"EntriesByID"},
 		Exempt: map[string]string{
 			"(*pkg/internal/tablist.TabList).hasEntry": "documented try-lock helper: called with the lock held by the keyed/legacy lists or takes a read lock itself",
-			"pkg/internal/tablist.New":                "constructor",
+			"pkg/internal/tablist.New":                 "constructor",
 		}})
 
 	// ---- (2) consume side
@@ -238,7 +273,9 @@ func runC28(c *Ctx) {
 		if mc == nil {
 			continue
 		}
-		for _, ci := range callsIn(f, func(nm string, cc *ssa.CallCommon) bool { return cc.IsInvoke() && strings.HasPrefix(cc.Method.Name(), "Set") && strings.HasSuffix(cc.Method.Name(), "Internal") }) {
+		for _, ci := range callsIn(f, func(nm string, cc *ssa.CallCommon) bool {
+			return cc.IsInvoke() && strings.HasPrefix(cc.Method.Name(), "Set") && strings.HasSuffix(cc.Method.Name(), "Internal")
+		}) {
 			setter := ci.Common().Method.Name()
 			var at *tabAttr
 			for i := range tabAttrs {
